@@ -70,7 +70,7 @@ def gen(rng, tier, idx):
                 if r.chance(15):
                     kbuf.append(["OB.", kt, "", (tf.u64(uid) + r.bytes(r.below(24))).hex()])
                 else:
-                    kbuf.append([r.choice(["OB.", "KCO", "KCI", "VTx", "zzz"]), kt, tf.u64(uid).hex(), None])
+                    kbuf.append([r.choice(["OB.", "KCO", "KCI", "VTx", "zzz", "VU]", "6U]", "DU]", "VU[", "KU]", "OU."]), kt, tf.u64(uid).hex(), None])
             elif a in ("drain", "emptydrain"):
                 t += dt
                 batch = [] if a == "emptydrain" else kbuf
